@@ -203,5 +203,16 @@ theorem gen_lc_iadd_eq_model (a b : LC ℝ) :
   unfold Gen.lc_iadd lcIadd
   rl_simp
 
+/-- T-tie: `xBinnedPolarizationCube.__iadd__`, regenerated on every run, is `iadd` (the averages are taken with the weights *before* the
+intensities are summed; COUNTS is a real number on the Python side) -/
+theorem gen_pcube_iadd_eq_model (a b : Bin ℝ) :
+    Gen.pcube_iadd a.EMEAN a.I b.EMEAN b.I a.MU b.MU (a.counts : ℝ) (b.counts : ℝ) a.W2 b.W2 a.Q b.Q a.U b.U =
+      ((iadd a b).EMEAN, (iadd a b).MU, (((iadd a b).counts : ℕ) : ℝ), (iadd a b).W2, (iadd a b).I, (iadd a b).Q, (iadd a b).U) := by
+  unfold Gen.pcube_iadd iadd
+  simp only [gen_weighted_average_eq_model]
+  rl_simp
+  push_cast
+  rfl
+
 end C07
 end
